@@ -39,9 +39,7 @@ use crate::incremental::IncrementalEngine;
 use crate::rule_catalog::RuleCatalog;
 use crate::schema::{RelationSchema, SchemaCatalog, ValidationEngine};
 use crate::statement::{RuleDef, SerializableBodyPred};
-use crate::storage::persist::{
-    consolidate_to_current, to_tuples, FilePersist, PersistBackend, PersistConfig, Update,
-};
+use crate::storage::persist::{to_current_set, FilePersist, PersistBackend, PersistConfig, Update};
 use crate::storage::{
     KnowledgeGraphMetadata, KnowledgeGraphsMetadata, StorageError, StorageResult,
 };
@@ -1767,12 +1765,10 @@ impl StorageEngine {
                 // Get shard info to determine since frontier
                 let info = self.persist.shard_info(&shard_name)?;
 
-                // Read and consolidate updates
-                let mut updates = self.persist.read(&shard_name, info.since)?;
-                consolidate_to_current(&mut updates);
-
-                // Extract current tuples (positive multiplicities only)
-                let tuples = to_tuples(&updates);
+                // Read the update log and rebuild the relation with the set semantics the
+                // live engine applies (the latest request per tuple decides)
+                let updates = self.persist.read(&shard_name, info.since)?;
+                let tuples = to_current_set(&updates);
 
                 if !tuples.is_empty() {
                     // Infer schema from first tuple
